@@ -247,18 +247,20 @@ def visitObj (rep : Option Tok) (ft : Tok) (fn : Option Tok) : V MField := do
     let a ← newAttr (.object false ft.text .none)
     pure { name, attr := some a, rep := rep.isSome, line := (rep.getD ft).line }
 
-/-- the type of a length / checksum field declared by name: taken from the MetaData entry when there is one -/
+/-- the type of a length / checksum field declared in the suffix form: the written type; only when none is written, the type
+of the MetaData entry named like the field (`fix:` 2df72d0 — before it the entry won over the written type) -/
 def metaTypeOf (name : String) (hasTy : Bool) (typ0 : String) (line : Nat) (site : String) : V String := do
-  let s ← get
-  match findMeta s name with
-  | some m => match m.attr.bind (s.attrs[·]?) with
-    | some a => pure (attrGetType a)
-    | none => throw (.nilDeref site)
-  | none => do
-    -- no type written and no MetaData entry to take it from
-    if !hasTy then
+  if hasTy then pure typ0
+  else
+    let s ← get
+    match findMeta s name with
+    | some m => match m.attr.bind (s.attrs[·]?) with
+      | some a => pure (attrGetType a)
+      | none => throw (.nilDeref site)
+    | none => do
+      -- no type written and no MetaData entry to take it from
       addDiag line ("Unknown MetaData type " ++ name ++ " for field " ++ name ++ " declared without a type")
-    pure typ0
+      pure typ0
 
 def visitLen (d : LenDecl) (line : Nat) : V MField := do
   let name := d.name.text
